@@ -84,7 +84,8 @@ func c18decode(v *verifrt.T, raw []byte) []c18note {
 	return out
 }
 
-var c18chans = []string{"a/", "a/b/", "c/"}
+// the unrelated third channel carries a reserved word of the API (emitter/presence/) as an ordinary name
+var c18chans = []string{"a/", "a/b/", "presence/"}
 
 // is channel x on channel p or below it
 func c18under(x, p string) bool { return strings.HasPrefix(x, p) }
